@@ -40,6 +40,13 @@ structure Ops (S D : Type) where
   apply : S → D → Except String S
   /-- `Snap::crc()` -/
   crc : S → Int
+  /-- do two snapshots have the same content? (only used by the protocol-conforming glue below) -/
+  same : S → S → Bool
+  /-- Which sender glue: `false` = `server/src/main.rs` as it is (it always writes the delta, which
+  is never zero bytes long, so it never sends `SnapEmpty`); `true` = a sender that, like the
+  reference server, hands `delta_chunks` empty data when the new snapshot equals the base
+  ("same as base": `SnapEmpty`, no payload, no checksum). -/
+  emptyWhenSame : Bool
 
 /-- `MAX_STORED_SNAPSHOT` -/
 def maxStored : Nat := Tw.Gen.SnapMgr.MAX_STORED_SNAPSHOT
@@ -109,6 +116,11 @@ def sendSnap {S D : Type} (ops : Ops S D) (st : Storage S) (tick : Int) (snap : 
   match st.addSnap ops tick snap with
   | none => .panic "Delta::create"
   | some (st', d) =>
+    if ops.emptyWhenSame && ops.same (st.baseOf ops ({ tick := tick, snap := snap } :: st.snaps)) snap then
+      match deltaChunks tick deltaTick [] (ops.crc snap) with
+      | .panic s => .panic s
+      | .ok ms => .ok (st', { tick := tick, base := deltaTick, bytes := [], crc := ops.crc snap }, ms)
+    else
     match ops.write d with
     | none => .panic "with_packer(..).unwrap()"
     | some bytes =>
